@@ -47,6 +47,7 @@ func registerProxies(reg contract.KernRegistry) {
 	for _, name := range proxyNames {
 		reg.RegisterKernMethod(name, "fwd", fwd)
 	}
+	reg.RegisterKernMethod(rawCaller, "fwd", fwd)
 }
 
 // request renders an op as the invoke request a client would send.
